@@ -10,6 +10,8 @@ CLAIMS = {
          "trusted: govc, go/ssa, SMT solvers. Not covered yet: groupByHour, sort/merge, buffer bookkeeping, schedules."),
  "C06": ("proof", "ParseEnvelope (the reader's envelope decoder) is proved panic-free and functionally exact for every byte string; a genuine uint16-wrap panic was found by the verifier, replayed, and fixed.",
          "trusted: govc, go/ssa, SMT solvers, binary.BigEndian contract. Frame reader loop (readEntry/ReadAll) not yet under contract."),
+ "C13": ("proof", "restoreDataFiles returns nil only if no per-file restore failed (loop contract with a ghost failure counter), and RestoreBackup reports completion only then; every path including cancellation is covered. The defect (failed file skipped, success reported) was found by the verifier, demonstrated by fault injection on the real code, and fixed.",
+         "trusted: govc, go/ssa, SMT solvers; ghost counter contract of streamRestoreFile; backend List completeness; byte fidelity rests on C08. Backup side not yet under contract."),
  "C26": ("proof", "Nonce cache Track/evict contracts (map-level, all states), validator freshness contract, lemma no.replay (ttl >= 2*tol+1s suffices), and call-site obligations that every NewNonceCache construction passes such a TTL. Found TTL=tolerance (fixed) and a MinInt64 drift wrap (known finding).",
          "trusted: govc, go/ssa, SMT solvers, time.spec (ghost clock), HMAC unforgeability; mutex exclusion assumed."),
  "C28": ("proof", "Representation invariant of the sliding-window counter (total = sum of slots, index in range) is preserved by advance and Allow for every state and clock value; Allow admits only below the limit; quota tracker admits only below the hourly/daily maxima and resets only forward.",
